@@ -538,7 +538,7 @@ func (u *Unit) arith(st *State, op token.Token, a, b Val, rt types.Type, pos tok
 	case token.AND, token.OR, token.XOR, token.AND_NOT:
 		name := map[token.Token]string{token.AND: "bitand", token.OR: "bitor", token.XOR: "bitxor", token.AND_NOT: "bitandnot"}[op]
 		u.declareBitops()
-		t = app(name, a.T, b.T)
+		t = app(name, pow2Lit(a.T), pow2Lit(b.T))
 	default:
 		u.unsupported(pos, "operator %s", op)
 	}
@@ -1124,6 +1124,7 @@ func (u *Unit) assign(st *State, lhs ast.Expr, v Val) {
 		base := u.eval(st, x.X)
 		switch bt := base.Ty.Underlying().(type) {
 		case *types.Slice:
+			u.checkParamElemWrite(st, x)
 			idx := u.eval(st, x.Index)
 			arr, off, ln, isnil := u.sliceParts(base)
 			u.safe("index", x.Pos(), st, sAnd(app("<=", "0", idx.T), app("<", idx.T, ln)), "0 <= index < len")
@@ -1255,4 +1256,50 @@ func (u *Unit) zeroArray(elemSort, zero string) string {
 	u.d.constant(name, "(Array Int "+elemSort+")")
 	u.d.axiom("zeroarr."+name, fmt.Sprintf("(forall ((i Int)) (! (= (select %s i) %s) :pattern ((select %s i))))", name, zero, name))
 	return name
+}
+
+// pow2Lit rewrites a literal power of two into (pow2 k) so that the bit axioms apply to it.
+func pow2Lit(t string) string {
+	if !isLit(t) {
+		return t
+	}
+	v, err := strconv.ParseUint(t, 10, 64)
+	if err != nil || v == 0 || v&(v-1) != 0 {
+		return t
+	}
+	k := 0
+	for v > 1 {
+		v >>= 1
+		k++
+	}
+	return app("pow2", strconv.Itoa(k))
+}
+
+// checkParamElemWrite: writing an element of a slice parameter is visible to the caller in Go.
+// The value model only propagates it if the contract declares the parameter in `writes`.
+func (u *Unit) checkParamElemWrite(st *State, x *ast.IndexExpr) {
+	if u.inlineDepth > 0 || u.sig == nil || u.contract == nil {
+		return
+	}
+	id, ok := ast.Unparen(x.X).(*ast.Ident)
+	if !ok {
+		return
+	}
+	obj := u.info.ObjectOf(id)
+	for i := 0; i < u.sig.Params().Len(); i++ {
+		if u.sig.Params().At(i) == obj {
+			for _, w := range u.contract.Writes {
+				if w == id.Name {
+					return
+				}
+			}
+			// only a problem if the parameter still denotes the caller's slice
+			if cur, ok := st.vars[obj]; ok && u.entry != nil {
+				if ent, ok := u.entry.vars[obj]; ok && cur.T != ent.T && !strings.Contains(cur.T, ent.T) {
+					return
+				}
+			}
+			u.oblige("frame", "param."+id.Name+"."+u.safeLabel("paramwrite"), x.Pos(), st, "false", "element of slice parameter "+id.Name+" is written but the contract has no `writes "+id.Name+"`")
+		}
+	}
 }
